@@ -316,6 +316,9 @@ impl rip_kernel::verif::Hooks for SchedHooks {
     fn ping(&self, endpoint: &str) -> Option<bool> {
         ENV.with(|e| e.borrow().as_ref().and_then(|e| e.ping(endpoint)))
     }
+    fn fail(&self, name: &'static str) -> bool {
+        ENV.with(|e| e.borrow().as_ref().map(|e| e.fail(name)).unwrap_or(false))
+    }
     fn retry_sleep(&self, name: &'static str) -> bool {
         if let Some((s, id)) = current() {
             s.yield_at(id, name, None);
@@ -335,6 +338,10 @@ pub trait ActorEnv {
     }
     fn ping(&self, _endpoint: &str) -> Option<bool> {
         None
+    }
+    /// Fault injection (environment answer "error") for the operation behind `name`.
+    fn fail(&self, _name: &str) -> bool {
+        false
     }
 }
 
